@@ -947,6 +947,9 @@ def _activity(st, bundle, res):
         bundle.schema.validate()
 
 
+_APP_MIDDLEWARES = []  # one list object per process lifetime (= per case)
+
+
 def _execute(config, bundle, spec, req, sched, policy):
     mode = MODE_OF[config]
     tags = ["R0"] + ["%s%d" % ("RSE"[(req.wseed >> (2 * i)) % 3], i)
@@ -1022,11 +1025,19 @@ def _execute(config, bundle, spec, req, sched, policy):
         from py_gql.validation import default_validator
         request["validators"] = [_accept_policy, default_validator,
                                  _accept_policy]
+    if (req.wseed >> 19) % 2 == 0:
+        # the application keeps ONE list of middlewares and edits it in place
+        # between requests (``app.middlewares.append(...)``)
+        def mw_factory(m):
+            _APP_MIDDLEWARES[:] = mws
+            return _APP_MIDDLEWARES
+    else:
+        mw_factory = (lambda m: list(mws)) if mws else None
     try:
         out = run_config(
             config, bundle, request, world, sched, policy=policy,
             instrumentation_factory=instr_factory,
-            middlewares_factory=(lambda m: list(mws)) if mws else None,
+            middlewares_factory=mw_factory,
         )
     finally:
         _tracers.datetime = _dt
